@@ -60,11 +60,16 @@ def run(ctx):
                 k = nh * (2 if flavour == 'rel' else 1) // (3 if y[1] else 1)
                 jobs.append(dict(kind='hist', flavour=flavour, threads=t, tag='h%d' % n,
                                  cmd=[e, '--mode', 'hist', '--threads', t, '--ops', ops, '--histories', max(20, k), '--seed', ctx.seed * 1000 + n, '--yield', y[0], '--yield-us', y[1]]))
-        for (t, keys, hint, hm, y) in ((8, 128, 1, 0, 0), (16, 64, 2, 0, 100), (4, 256, 1, 13, 200), (8, 96, 16, 5, 0), (3, 200, 1, 0, 300)):
+        # waves: all threads fill a fresh table through its generations, then all drain it at once (traffic on the older tables);
+        # plus epochs of random mixed operations
+        wave_epochs = 30000 if thorough else 250
+        for (t, keys, hint, hm, y, rnds, eps) in ((8, 128, 16, 0, 0, 0, wave_epochs), (16, 64, 16, 0, 0, 0, wave_epochs), (8, 128, 2, 0, 0, 0, wave_epochs // 2),
+                                                  (4, 256, 16, 0, 100, 0, wave_epochs // 2), (8, 64, 16, 5, 0, 0, wave_epochs // 2), (3, 100, 1, 0, 300, 0, wave_epochs // 2),
+                                                  (8, 128, 1, 0, 0, rounds, 4), (16, 64, 2, 0, 100, rounds, 4), (4, 256, 1, 13, 200, rounds, 4)):
             n += 1
             jobs.append(dict(kind='stress', flavour=flavour, threads=t, tag='s%d' % n,
                              cmd=[e, '--mode', 'stress', '--threads', t, '--keys', keys, '--shared', 8, '--hint', hint, '--hmod', hm, '--maxbits', 12 if hm == 0 else 9,
-                                  '--rounds', rounds, '--epochs', 6, '--seed', ctx.seed * 1000 + n, '--yield', y]))
+                                  '--rounds', rnds, '--epochs', eps, '--seed', ctx.seed * 1000 + n, '--yield', y]))
 
     def one(j):
         if ctx.violations:
@@ -96,8 +101,8 @@ def run(ctx):
             for h in [h for h in r.of('history') if h['why'] == 'sample'][:1]:
                 ctx.sample({'threads': s['threads'], 'flavour': j['flavour'], 'shared_key_history': h['ops'][:600]}, cap=5)
         else:
-            ctx.evaluations += s['epochs']
-            for k in ('ops', 'finds_other', 'shared_inserted', 'shared_removed', 'resizes'):
+            ctx.evaluations += s['epochs']; ctx.add_cov('stress_epochs', s['epochs'])
+            for k in ('ops', 'finds_other', 'shared_inserted', 'shared_removed', 'resizes', 'generations_after_grow_sum'):
                 ctx.add_cov('stress_' + k, s[k])
             ctx.add_cov('yield_hits', s['yield_hits'])
     ctx.cov['thread_counts'] = [1, 2, 3, 4, 8, 16]
